@@ -629,7 +629,7 @@ def finalErr (e : LoopEnd) : Err :=
   let t := e.tok
   let st := (topState t).1
   let sv := (topState t).2
-  if e.c == 0 && st != .finish && sv != .finish then .eof
+  if e.c == 0 && (t.stack.length > 1 || (st != .finish && sv != .finish)) then .eof
   else if e.c != 0 && st == .finish && t.stack.length == 1 && t.strict && !t.allowTrailing then .unexpected
   else if t.validateUtf8 && e.loc.nBytes != 0 then .utf8
   else loopErr e
